@@ -257,6 +257,27 @@ def run(ctx):
             if np.isfinite(num) and np.isfinite(ref):
                 fd_cases.append((fn, x, num, ref))
                 ctx.case(("fd", fn, x))
+    # re-exported functions of an order and an argument: derivative with respect to the argument, orders 0..3
+    for fn in ("jn", "yn", "iv", "ive"):
+        f = getattr(sp, fn, None)
+        sf = getattr(scipy.special, fn, None)
+        if f is None or sf is None:
+            ctx.skip("re-export missing " + fn)
+            continue
+        for n in (0, 1, 2, 3):
+            for x in (0.7, 2.3, 4.1):
+                h = 1e-3 * max(1.0, abs(x))
+                ref = float((-sf(n, x + 2 * h) + 8 * sf(n, x + h) - 8 * sf(n, x - h) + sf(n, x - 2 * h)) / (12 * h))
+                try:
+                    o = pe.pseudo_Obs(x, 0.001, "ens", samples=50)
+                    r = pe.derived_observable(lambda a, **kw: f(n, a[0]), [o])
+                    num = float(np.dot(r.deltas["ens"], o.deltas["ens"]) / np.dot(o.deltas["ens"], o.deltas["ens"]))
+                except Exception as e:
+                    ctx.skip("re-export %s raised" % fn)
+                    continue
+                if np.isfinite(num) and np.isfinite(ref):
+                    fd_cases.append(("%s(%d, .)" % (fn, n), x, num, ref))
+                    ctx.case(("fd", fn, n, x))
     kv = "\n".join([
         "From Coq Require Import ZArith QArith List Bool.",
         "From PV Require Import Base.QAux.", "Import ListNotations.", "Open Scope Q_scope.",
